@@ -321,7 +321,7 @@ InitRaw_G(s, e) == [ periodPositive |-> DOMAIN s.cfg = {} \/ e.period > 0 ]
 InitRaw_E(s, e) == s        \* the probe chain is thrown away
 InitRaw_R(s, e) == [accepted |-> TRUE]
 ExportImport_E(s, e) == s
-ExportImport_R(s, e) == [same |-> TRUE]
+ExportImport_R(s, e) == [same |-> TRUE, claimsKept |-> TRUE]    \* claimsKept: claim records at the edges of the hash space survive the round trip (harness probe)
 
 ----------------------------------------------------------------------------
 (* gRPC queries (keeper/querier.go).  A query never changes state; the specification fixes its answer.  *)
